@@ -32,8 +32,9 @@ import Verif.Model.Common
   `time.Now().Truncate(time.Second)` exactly as `DefaultAuthorizeRenew` does), DER encoders of
   the generated extensions (`Enc`), key-identifier hash (`skiOf`), serial number generator.
 
-  `Variant` selects between the code as it stands and the two proposed repairs (D9, D17); the
-  one-line switch is `current` below.
+  `Variant` selects between the tree before the repairs (D9, D17), /repo HEAD after the two
+  `fix:` commits, and the full repair (D9 also for RA-wrapped records); the one-line switch is
+  `current` below.
 -/
 namespace Verif.Renew
 open Verif
@@ -236,7 +237,10 @@ inductive Stored where
 
 /-- What `AuthorizeRenew` is called on: a stored provisioner or `&noop{}`. -/
 inductive Prov where
-  | stored (s : Stored)
+  /-- a provisioner from the collection; `wrapped`: returned inside `wrappedProvisioner` because the
+      database record carries RA information (`wrapRAProvisioner`), which hides its dynamic type
+      from a type assertion but forwards every method -/
+  | stored (s : Stored) (wrapped : Bool)
   | noop
   deriving DecidableEq, Repr
 
@@ -247,9 +251,10 @@ inductive Revoked where
 
 /-- `unsafeLoadProvisionerFromDatabase`: no usable record (no database, lookup error, no data, or
     data without provisioner); a record naming a provisioner id that `provisioners.Load` does not
-    find; a record whose provisioner is loaded. -/
+    find; a record whose provisioner is loaded (`ra`: the record has `RaInfo`, the result is
+    `wrapRAProvisioner(p, data.RaInfo)`). -/
 inductive DbLookup where
-  | noRecord | gone | found (p : Stored)
+  | noRecord | gone | found (p : Stored) (ra : Bool)
   deriving DecidableEq, Repr
 
 /-- `Collection.LoadByCertificate`: no provisioner extension (⇒ noop, true); extension that does
@@ -269,17 +274,25 @@ structure GateIn where
 
 /-- The code as it stands and the two proposed repairs. -/
 structure Variant where
-  /-- D9 repair: `authorizeRenew` refuses `provisioner.Uninitialized` (as `getProvisionerFromToken` does) -/
+  /-- D9 repair (commit c93b602): `authorizeRenew` refuses `provisioner.Uninitialized` by a type
+      assertion on the selected provisioner (as `getProvisionerFromToken` does) -/
   refuseUninit : Bool
-  /-- D17 repair: the no-op provisioner is not accepted when the database names a provisioner -/
+  /-- D17 repair (commit 33e7bf8): in the fallback branch the no-op provisioner is not accepted
+      when `certificateRecordsProvisioner(cert)` (the database names a provisioner) -/
   noNoopWhenDbNames : Bool
+  /-- D9-RA repair (not applied): the `Uninitialized` test looks through `wrappedProvisioner` -/
+  unwrapUninit : Bool
   deriving DecidableEq, Repr
 
-def asCoded : Variant := ⟨false, false⟩
-def repaired : Variant := ⟨true, true⟩
+/-- the tree before the two `fix:` commits -/
+def asCodedBefore : Variant := ⟨false, false, false⟩
+/-- /repo HEAD after c93b602 (D9) and 33e7bf8 (D17) -/
+def fixedD9D17 : Variant := ⟨true, true, false⟩
+/-- all three repairs -/
+def repaired : Variant := ⟨true, true, true⟩
 
 /-- THE ONE-LINE SWITCH: which variant the driver (and so the correspondence check) runs. -/
-def current : Variant := asCoded
+def current : Variant := fixedD9D17
 
 inductive Reason where
   | revocationCheckFailed | revoked | provisionerNotFound | uninitialized
@@ -296,7 +309,7 @@ def collectionLoadByCertificate : ExtLookup → Option Prov
   | .noExt => some .noop
   | .malformed => none
   | .gone => none
-  | .found p => some (.stored p)
+  | .found p => some (.stored p false)
 
 /-- `unsafeLoadProvisionerFromExtension`: `!ok || p.GetType() == 0` is an error (noop has type 0). -/
 def loadFromExtension (e : ExtLookup) : Option Prov :=
@@ -308,7 +321,7 @@ def loadFromExtension (e : ExtLookup) : Option Prov :=
 /-- `LoadProvisionerByCertificate`: database first, then the extension. `none` = error. -/
 def loadByCertificate (i : GateIn) : Option Prov :=
   match i.db with
-  | .found p => some (.stored p)
+  | .found p ra => some (.stored p ra)
   | _ => loadFromExtension i.ext
 
 /-- `DefaultAuthorizeRenew` -/
@@ -322,11 +335,11 @@ def defaultAuthorizeRenew (disableRenewal allowAfterExpiry : Bool) (i : GateIn) 
     dereferences the nil controller: a Go panic. -/
 def provAuthorizeRenew (i : GateIn) : Prov → M Decision
   | .noop => .val .allow
-  | .stored .base => .val (.refuse .notImplemented)
-  | .stored .uninit => .crash
-  | .stored (.ctl _ _ .allow) => .val .allow
-  | .stored (.ctl _ _ .refuse) => .val (.refuse .customRefused)
-  | .stored (.ctl d a .none) => .val (defaultAuthorizeRenew d a i)
+  | .stored .base _ => .val (.refuse .notImplemented)
+  | .stored .uninit _ => .crash
+  | .stored (.ctl _ _ .allow) _ => .val .allow
+  | .stored (.ctl _ _ .refuse) _ => .val (.refuse .customRefused)
+  | .stored (.ctl d a .none) _ => .val (defaultAuthorizeRenew d a i)
 
 /-- The first half of `authorizeRenew` after the revocation check:
     `p, err := a.LoadProvisionerByCertificate(cert)`; on error fall back to
@@ -338,15 +351,20 @@ def selectProvisioner (v : Variant) (i : GateIn) : Option Prov :=
     match collectionLoadByCertificate i.ext with
     | none => none
     | some q =>
-      -- D17 repair: here `q` can only be the no-op provisioner; refuse it when the
-      -- database record names a provisioner (which, by now, is known not to load)
+      -- D17 repair: `if !ok || a.certificateRecordsProvisioner(cert) { not found }`. Here `q`
+      -- can only be the no-op provisioner, and the database lookup has failed, so the record
+      -- names a provisioner exactly when `db = gone`.
       if v.noNoopWhenDbNames && i.db == .gone then none else some q
 
-/-- The second half: `p.AuthorizeRenew(ctx, cert)`, preceded (D9 repair) by the refusal of
-    `provisioner.Uninitialized`. -/
+/-- The second half: `p.AuthorizeRenew(ctx, cert)`, preceded (D9 repair) by
+    `if _, ok := p.(provisioner.Uninitialized); ok { refuse }`. The assertion is on the dynamic
+    type of `p`: it fails for a `*wrappedProvisioner` around an uninitialised provisioner. -/
 def callAuthorizeRenew (v : Variant) (i : GateIn) (p : Prov) : M Decision :=
-  if v.refuseUninit && p == .stored .uninit then .val (.refuse .uninitialized)
-  else provAuthorizeRenew i p
+  match p with
+  | .stored .uninit wrapped =>
+    if v.refuseUninit && (!wrapped || v.unwrapUninit) then .val (.refuse .uninitialized)
+    else provAuthorizeRenew i p
+  | _ => provAuthorizeRenew i p
 
 /-- `authorizeRenew`: decision and the provisioner returned alongside (used for metering only). -/
 def authorizeRenew (v : Variant) (i : GateIn) : M (Decision × Option Prov) :=
